@@ -110,11 +110,16 @@ def check_evaluate(ctx: Ctx):
         raise AnchorMissing(f"{f.qual}: parameters {sorted(pn)}")
     labels = [Sym(f"L{i}") for i in range(4)]
     n_cfg = 0
-    for dm in (None, inc, dec):
-        for thr in ((None,) if dm is None else (Fraction(0), Fraction(1, 2))):
-            for thr_repr in ((thr,) if thr is None else (thr, float(thr))):
+    # reporting switches of the function (boolean parameters that default to off) are also run switched on:
+    # what is counted must not depend on them
+    flags = [p.name for p in f.call_params if p.name != pair_p and p.name not in need and isinstance(p.default, ast.Constant) and p.default.value is False]
+    for dm, thr, thr_repr, flag in [(dm, thr, tr, fl) for fl in [None] + flags for dm in (None, inc, dec) for thr in ((None,) if dm is None else (Fraction(0), Fraction(1, 2))) for tr in ((thr,) if thr is None else (thr, float(thr)))]:
+        if True:
+            if True:
                 pair = Obj(pcls, {"matched_instances": list(labels), "_reference_arr": Sym("REF_ARR"), "_prediction_arr": Sym("PRED_ARR"), "n_prediction_instance": Sym("N_PRED"), "n_reference_instance": Sym("N_REF"), "_pred_labels": tuple(labels), "_ref_labels": tuple(labels), "missed_reference_labels": [], "missed_prediction_labels": []})
                 args = {pair_p: pair, "eval_metrics": evalm, "decision_metric": dm, "decision_threshold": thr_repr}
+                if flag:
+                    args[flag] = True
                 its = []
 
                 def make(prefix, args=args, dm=dm):
@@ -122,10 +127,17 @@ def check_evaluate(ctx: Ctx):
                     its.append(it)
                     return it
 
-                outs = enumerate_paths(make)
+                try:
+                    outs = enumerate_paths(make)
+                except Undecided:
+                    if flag:
+                        continue  # the reporting code itself is not modelled: the run with the switch off stands
+                    raise
                 n_cfg += 1
                 dname = "none" if dm is None else dm.attrs["_name_"]
-                construct = f"{f.qual}:decision={dname}({'decreasing' if dm is dec else 'increasing' if dm is inc else '-'}),threshold={thr_repr!r}"
+                construct = f"{f.qual}:decision={dname}({'decreasing' if dm is dec else 'increasing' if dm is inc else '-'}),threshold={thr_repr!r}" + (f",{flag}=True" if flag else "")
+                if flag and (len(outs) != 1 or outs[0].decisions):
+                    continue
                 if len(outs) != 1 or outs[0].decisions:
                     ctx.undecided("R02.1", f, f.node, construct, "instance evaluation splits on an unmodelled condition", {"decisions": [norm(d[0]) for o in outs for d in o.decisions if isinstance(d[0], ast.AST)][:4]})
                     continue
@@ -638,6 +650,9 @@ def check(ctx: Ctx):
     c03._guarded(ctx, "R10.5", c10.check_padded_starts)
     c03._guarded(ctx, "R10.3", c10.check_crop_mask)
     c03._guarded(ctx, "R15.1", c15.check_no_input_mutation)
+    # the per-instance score dicts are read for the decision and for the lists after whatever was built
+    # from them (records, summaries): building objects must not modify the dicts it is given (R15.3)
+    c03._guarded(ctx, "R15.3", c15.check_ctor_purity)
     c03._guarded(ctx, "R03.3", c03.check_beats)
     # results of later evaluations (another group, a flipped copy, the exchanged pair, a second
     # threshold) are only meaningful if no step writes into the caller's arrays (R15.8)
